@@ -26,6 +26,8 @@ THEOREMS = [
     "LoadTree.C14_restored", "LoadTree.C14_restored_env", "LoadTree.C14_restored_clean", "LoadTree.C14_calls",
     "LoadTree.C14_init_once", "LoadTree.C14_init_at_most_once", "LoadTree.C14_init_order", "LoadTree.C14_kwargs",
     "LoadTree.C14_kwargs_ops", "LoadTree.C14_kwargs_pinned_false", "LoadTree.C14_unbalanced_false",
+    "LoadTree.C14_procs_see_start", "LoadTree.C14_procs_see_clean", "LoadTree.C14_init_sees_clean_false",
+    "LoadTree.C14_kwargs_ops_general", "LoadTree.C14_kwargs_harmless_alive", "LoadTree.C14_no_init_when_unresolved",
 ]
 CLEAN = [0, False, False, 0]
 
@@ -98,7 +100,9 @@ class Prop(Check):
                 "not exhibited: attribute values (checked by the direct oracle only), repositories (C17/C18), CPython's GC")
     ASSUMPTIONS = [
         "user code does not delete grammar attributes / the `parent` of a contained object while the object is under "
-        "construction (C14_kwargs_ops: Op.harmless); it may store anything, also `parent` on a root object",
+        "construction (C14_kwargs_ops: Op.harmless, needed for the exact key *list*; without it C14_kwargs_ops_general "
+        "still gives the key set: the rule's attributes (+parent) minus what user code deleted for good, none twice); "
+        "it may store anything, also `parent` on a root object",
         "nested loads started by user code leave the classes as they found them (proved for loads of the table: runF_frame)",
         "object ids are fresh (allocator counter); a key of _tx_obj_attrs belongs to a live object",
         "scope-provider calls of later resolution rounds are not modelled (the harness logs the first call per reference)",
